@@ -407,8 +407,27 @@ class StmtMixin(object):
 
     def s_With(self, st, env):
         leaving = []
-        for item in st.items:
+        for idx, item in enumerate(st.items):
             v = self.eval(item.context_expr, env)
+            if type(v).__name__ == "PyObjV" and hasattr(v.obj, "run_with"):
+                # generator-based context manager: the rest of this with-statement runs at its yield
+                rest = ast.With(items=st.items[idx + 1:], body=st.body) if st.items[idx + 1:] else None
+                if rest is not None:
+                    ast.copy_location(rest, st)
+
+                def body(val, item=item, rest=rest):
+                    if item.optional_vars is not None:
+                        self.assign(item.optional_vars, val, env)
+                    if rest is not None:
+                        self.s_With(rest, env)
+                    else:
+                        self.exec_block(st.body, env)
+                try:
+                    v.obj.run_with(self, body)
+                finally:
+                    for o in reversed(leaving):
+                        o.exit(self)
+                return
             if type(v).__name__ == "PyObjV" and hasattr(v.obj, "enter"):
                 leaving.append(v.obj)
                 v = v.obj.enter(self)         # library context managers whose __enter__ returns something else
@@ -1003,6 +1022,11 @@ class StmtMixin(object):
         sep = seps.pop() if seps else ""
         it = items[0]
         elem = chunk["elem"]
+        own = set(id(i.value.spec) for i in items if getattr(i.value, "spec", None) is not None)
+        if own:
+            if len(own) != 1 or any(getattr(i.value, "spec", None) is None for i in items):
+                self.err(node, "chunk row mixes items of different row buffers")
+            elem = items[0].value.spec["elem"]
         if it.conv == "s" and it.width is None and is_strlike(elem):
             item_node = to_node(elem)
         else:
@@ -1011,8 +1035,9 @@ class StmtMixin(object):
 
 
 class ChunkItem(V):
-    def __init__(self, idx):
+    def __init__(self, idx, spec=None):
         self.idx = idx
+        self.spec = spec        # the row buffer the item belongs to (its element may be a mapped one)
 
     def key(self):
         return ("chunkitem", self.idx)
@@ -1078,6 +1103,21 @@ def _single_top_level_increment(body, name):
                 return None
             found = (st.op, st.value)
             continue
+        # the spelled-out form  name = name + expr  /  name = expr + name  /  name = name - expr
+        if isinstance(st, ast.Assign) and len(st.targets) == 1 and isinstance(st.targets[0], ast.Name) and st.targets[0].id == name \
+                and isinstance(st.value, ast.BinOp) and isinstance(st.value.op, (ast.Add, ast.Sub)):
+            l, r = st.value.left, st.value.right
+            inc = None
+            if isinstance(l, ast.Name) and l.id == name and not any(isinstance(n, ast.Name) and n.id == name for n in ast.walk(r)):
+                inc = (st.value.op, r)
+            elif isinstance(st.value.op, ast.Add) and isinstance(r, ast.Name) and r.id == name \
+                    and not any(isinstance(n, ast.Name) and n.id == name for n in ast.walk(l)):
+                inc = (st.value.op, l)
+            if inc is not None:
+                if found is not None:
+                    return None
+                found = inc
+                continue
         for n in ast.walk(st):
             if isinstance(n, ast.Name) and n.id == name and isinstance(n.ctx, ast.Store):
                 return None
